@@ -48,7 +48,7 @@ class World:
 
 def step(w, ri, tg):
     rng = w.rng
-    kind = rng.choice(["create", "create_id", "create_setter", "replace_rejected", "copy", "copy_leaf_history", "json", "json_foreign", "xml", "attach", "remove", "replace", "replace_keep", "prune", "expand", "delete", "delete_nochildren"])
+    kind = rng.choice(["create", "create_id", "create_setter", "replace_rejected", "copy", "copy_leaf_history", "replace_sibling", "json", "json_foreign", "xml", "attach", "remove", "replace", "replace_keep", "prune", "expand", "delete", "delete_nochildren"])
     nodes = w.all_nodes()
     if kind == "create":
         n = Node(rng.choice(["title", "para", "zz"]), content=rng.choice([None, "x"]))
@@ -83,6 +83,40 @@ def step(w, ri, tg):
                 p.replace_child(old, new, delete_old=True)
             except ValueError:
                 pass
+    elif kind == "replace_sibling":
+        # replace_child(old, new) where `new` is already an earlier sibling of `old` (default: the old one is discarded): whatever the
+        # child list looks like afterwards, exactly the old subtree leaves the registry and nothing that stays in the tree does
+        par = Node("dataset")
+        kids = [Node("title", content=str(i)) for i in range(4)]
+        for k_ in kids:
+            par.add_child(k_)
+        kids[2].add_child(Node("emphasis", content="below old"))
+        w.add_tree(par)
+        old_, new_ = kids[2], kids[rng.choice([0, 1])]
+        w.forget_tree(old_)
+        par.replace_child(old_, new_)
+        what_ = None
+        for n_ in walk(old_):
+            if Node.get_node_instance(n_.id) is not None:
+                what_ = "the replaced (discarded) node is still registered"
+        seen_ = set()
+        for n_ in walk(par):
+            if id(n_) in seen_:
+                continue
+            seen_.add(id(n_))
+            if Node.get_node_instance(n_.id) is not n_:
+                what_ = f"node '{n_.name}' ({n_.content}) is still in the tree after the replace but is no longer registered"
+        for k_ in kids:
+            if k_ is not old_ and Node.get_node_instance(k_.id) is k_ and not any(c is k_ for c in par.children):
+                what_ = f"sibling '{k_.content}' was dropped from the tree by the replace but is still registered (and was never discarded)"
+        # retire the scratch tree on the harness side (a node listed twice is no shape for the later operations of the history)
+        w.roots.remove(par)
+        for n_ in list(walk(par)) + list(walk(old_)) + kids:
+            if n_.id in w.live:
+                w.log.append(["delone", n_.id])        # one entry per distinct node (the child list may name a node twice)
+            Node.store.pop(n_.id, None); w.live.pop(n_.id, None)
+        if what_:
+            raise AssertionError(what_)
     elif kind == "copy_leaf_history":
         # copy a childless node, let one of the pair grow, discard the other one: the two share nothing
         src = Node(rng.choice(["title", "para"]), content="s")
@@ -192,17 +226,20 @@ def step(w, ri, tg):
         # the referencing element may have other children around the references node (they stay where they are)
         pre_ = [impl.T("positionName", "before")] if rng.random() < 0.3 else []
         post_ = [impl.T("onlineUrl", "http://a.b/c")] if rng.random() < 0.3 else []
-        dst = impl.build(impl.T("contact", None, pre_ + [impl.T("references", "c1")] + post_))
+        two_refs = rng.random() < 0.3          # two references nodes under one parent (each is replaced where it stands)
+        dst = impl.build(impl.T("contact", None, pre_ + [impl.T("references", "c1")] + ([impl.T("references", "c1")] if two_refs else []) + post_))
         ds = Node("dataset"); ds.add_child(src); ds.add_child(dst)
         if rng.random() < 0.4:
             # a references node that has nodes below it (a stray element in an imported document): expansion discards the whole subtree
             ref_ = [c for c in dst.children if c.name == "references"][0]
             stray = Node("zzStray", content="x"); ref_.add_child(stray); stray.add_child(Node("zzDeeper"))
         w.add_tree(ds)
-        ref = [c for c in dst.children if c.name == "references"][0]
+        refs_all = [c for c in dst.children if c.name == "references"]
+        ref = refs_all[0]
         before = set(Node.store.keys())
         references.expand(ds)
-        w.forget_tree(ref)
+        for r_ in refs_all:
+            w.forget_tree(r_)
         for n in walk(dst):
             if n.id not in w.live and n is not ref:
                 pass
@@ -244,9 +281,10 @@ def check(w):
     lost = [k for k in exp if k not in reachable]
     if lost:
         return f"live node(s) {[exp[k].name for k in lost][:3]} were never discarded but are no longer part of any tree the history holds (dropped from their parent without being deleted)"
-    ids = [n.id for n in w.all_nodes()]
-    if len(ids) != len(set(ids)):
-        return "two distinct live nodes carry the same id"
+    byid = {}
+    for n in w.all_nodes():
+        if byid.setdefault(n.id, n) is not n:
+            return "two distinct live nodes carry the same id"
     return None
 
 
